@@ -158,7 +158,7 @@ func c18Gen(r *rand.Rand) c18Case {
 		if rs := t.Ctrs[i].Recs; len(rs) > 0 && rs[len(rs)-1].TS >= ts {
 			continue // within one container timestamps stay strictly increasing
 		}
-		t.Ctrs[i].Recs = append(t.Ctrs[i].Recs, LRec{TS: ts, Body: pick(r, []string{"error x", "info", "lvl=warn n=5", "x", "a=1"})})
+		t.Ctrs[i].Recs = append(t.Ctrs[i].Recs, LRec{TS: ts, Body: pick(r, []string{"error x", "info", "lvl=warn n=5", "x", "a=1", `{"a":"x","nested":{"k":1}}`, `{"nested":[1,2],"lvl":"warn"}`})})
 	}
 	if r.Intn(2) == 0 {
 		inner := &MExpr{Kind: "range", Op: pick(r, []string{"count_over_time", "bytes_over_time", "rate"}), RangeS: pick(r, []int64{5, 10})}
@@ -180,7 +180,7 @@ func c18Gen(r *rand.Rand) c18Case {
 			t.Sel = []LMatcher{{Label: pick(r, []string{"container", "tier", "app"}), Op: pick(r, []string{"eq", "ne"}), Value: pick(r, []string{"web", "x", "fe", ""})}}
 		}
 		for i, m := 0, r.Intn(3); i < m; i++ {
-			t.Stages = append(t.Stages, genStage(r, pick(r, []string{"lf", "logfmt", "lblf", "drop", "lblfmt"})))
+			t.Stages = append(t.Stages, genStage(r, pick(r, []string{"lf", "logfmt", "lblf", "drop", "lblfmt", "json"})))
 		}
 		fixAmbiguity(t.Stages)
 		if r.Intn(3) == 0 {
